@@ -200,7 +200,10 @@ def run_property(prop, tier="quick", facts_path=None, write_evidence=True, repo=
                 cl = thorough.clippy_cross(repo)
                 extra["clippy_disallowed_methods"] = cl
                 ctx.ob("R00.cross", "clippy-disallowed-methods", cl["ran"] and not cl["hits"], "independent type-resolved cross-reference (clippy::disallowed_methods, engine/clippy/clippy.toml): %s" % (cl["hits"] or "no hit"))
-            extra["mutant_selftest"] = thorough.mutant_selftest(prop)
+            st = thorough.change_selftest(prop)
+            extra["mutant_selftest"] = st["mutants"]
+            extra["seeded_change_selftest"] = st["seeded"]
+            extra["refactoring_selftest"] = st["refactorings"]
         if tier == "thorough" and getattr(mod, "RELEASE_TOO", True) and repo == REPO:
             rtmp, rpath = extract(repo, release=True)
             try:
@@ -254,6 +257,15 @@ def run_property(prop, tier="quick", facts_path=None, write_evidence=True, repo=
         for x in st:
             if x["status"] != "reported":
                 print("   self-test: %s %s" % (x["mutant"], x["status"]))
+        sd = extra.get("seeded_change_selftest") or []
+        rf = extra.get("refactoring_selftest") or []
+        print("   self-test: %d/%d independently written breaking changes for %s reported; %d/%d behaviour-preserving refactorings leave it silent" % (sum(1 for x in sd if x["status"] == "reported"), len(sd), prop, sum(1 for x in rf if x["status"] == "silent"), len(rf)))
+        for x in sd:
+            if x["status"] != "reported":
+                print("   self-test: seeded %s %s" % (x["change"], x["status"]))
+        for x in rf:
+            if x["status"] != "silent":
+                print("   self-test: refactoring %s %s %s" % (x["refactoring"], x["status"], x["rules"][:3]))
     wall = time.time() - t0
     if write_evidence:
         ev = evidence_json(prop, tier, seed, ctx, counts, viol, new, matched, wall, mod, extra_release)
@@ -262,6 +274,12 @@ def run_property(prop, tier="quick", facts_path=None, write_evidence=True, repo=
             st = extra.get("mutant_selftest") or []
             ev["coverage"]["mutants_tried"] = len(st)
             ev["coverage"]["mutants_reported"] = sum(1 for x in st if x["status"] == "reported")
+            sd = extra.get("seeded_change_selftest") or []
+            rf = extra.get("refactoring_selftest") or []
+            ev["coverage"]["seeded_changes_tried"] = len(sd)
+            ev["coverage"]["seeded_changes_reported"] = sum(1 for x in sd if x["status"] == "reported")
+            ev["coverage"]["refactorings_tried"] = len(rf)
+            ev["coverage"]["refactorings_silent"] = sum(1 for x in rf if x["status"] == "silent")
         with open(os.path.join(VERIF, "evidence", "%s.json" % prop), "w") as fh:
             json.dump(ev, fh, indent=1)
     return 1 if new else 0, ctx
